@@ -99,6 +99,15 @@ def make_validator(desc, pn, idx, journal):
                 if is_int and value <= desc[1]:
                     return value
                 self.raise_exception(value=value, msg='too large')
+            if kind == 'maxnamed':
+                # a validator whose rejection already CARRIES a parameter_name (that of another field): a composite validator
+                # delegating through the public helper Validator.validate_param(value, parameter_name=<field>) (desc[3] == 0)
+                # or building ValidatorException(parameter_name=<field>) itself (desc[3] == 1).  Accepts like 'max'.
+                if desc[3] == 0:
+                    return make_validator(['max', desc[1]], pn, idx, []).validate_param(value=value, parameter_name=pname(desc[2]))
+                if is_int and value <= desc[1]:
+                    return value
+                raise ValidatorException(msg='too large', validator_name=self.name, value=value, parameter_name=pname(desc[2]))
             if kind == 'add':
                 if is_int:
                     return value + desc[1]
